@@ -379,8 +379,11 @@ def call_attr(I, n, f, args, kwargs):
             return args[1] if len(args) > 1 else NONE
         if name in ('items', 'values', 'keys'):
             if name == 'items':
-                return ListV(Tup([S(k) if isinstance(k, str) else Lit(k), v]) for k, v in recv.items())
-            return ListV(recv.values()) if name == 'values' else ListV(S(k) if isinstance(k, str) else Lit(k) for k in recv)
+                return ListV([Tup([S(k) if isinstance(k, str) else Lit(k), v]) for k, v in recv.items()] +
+                             [Tup([k, v]) for k, v in recv.pairs])
+            if name == 'values':
+                return ListV(list(recv.values()) + [v for k, v in recv.pairs])
+            return ListV([S(k) if isinstance(k, str) else Lit(k) for k in recv] + [k for k, v in recv.pairs])
         return Other('dict.' + name)
     if isinstance(recv, (Obj, Other)) and name in ('apply', 'applymap', 'map') and args and \
             isinstance(args[0], (Vectorized, Closure)):
@@ -740,6 +743,14 @@ def api_convert_from(I, n, s, q, fu, tu):
         if isinstance(q, Other):
             I.incomplete(n, f"convert_from of an uninterpreted quantity {q!r}")
         raise Raised('TypeError', n.lineno)
+    if isinstance(q, Lit) and q.v != 0:
+        # a literal amount is *defined* to be in the from-unit: the result is the conversion factor
+        # (k from-units expressed in to-units), a number in to-unit per from-unit
+        I.sink(n, 'convert-from-unit', True)
+        out = cell_outcome(I, n, s, fuu, tuu)
+        if isinstance(out, Num):
+            return Num((tuu / fuu).scaled(1.0 / q.v))
+        return out
     benign = isinstance(s, Subst) and s.kind == 'enzyme' and 'mol' in fuu.dims and 'mol' in tuu.dims
     uq = I.as_unit(q, n, True)
     if benign:
